@@ -124,6 +124,7 @@ def interpolation(rep, an):
         rep.check("R-FLOW", "all interpolators evaluated on the same new domain", None if not calls else len(terms) == 1, where=res.fn.loc(),
                   construct="interpolator(new_domain)", entry=entry, config=res.config)
         R.rule_dtype_casts(rep, res, entry)
+        R.rule_iterator_reuse(rep, res, entry)
         R.rule_every_iteration_reaches(rep, res, "interp1d", "the interpolation onto the common domain", entry, fn_name="_interpolate_domains")
         for tv in res.events("abs_tolerance"):
             at = tv.d.get("atol")
